@@ -199,7 +199,11 @@ class Analysis:
     symbol); `on_store(fn, stmt, key, value, state)` and `on_sub(...)` are
     callbacks for obligations; returns are collected."""
 
-    def __init__(self, prog, invariant=None, on_store=None, on_sub=None, max_states=4000):
+    def __init__(self, prog, invariant=None, on_store=None, on_sub=None, max_states=4000,
+                 on_loop_pre=None, on_loop_entry=None, on_backedge=None):
+        self.on_loop_pre = on_loop_pre
+        self.on_loop_entry = on_loop_entry
+        self.on_backedge = on_backedge
         self.prog = prog
         self.invariant = invariant
         self.on_store = on_store
@@ -416,6 +420,15 @@ class Analysis:
             if key is None:
                 out.append((val, s))
                 continue
+            r0 = ir.strip(e.get("r")) if isinstance(e.get("r"), dict) else None
+            if op == "=" and isinstance(r0, dict) and r0.get("k") == "init" and all("f" in el for el in r0.get("elts", [])):
+                # aggregate initialisation of a record: field by field
+                for el in r0["elts"]:
+                    vs = self.eval(f, el["v"], s)
+                    if len(vs) == 1:
+                        self.write(s, "%s.%s" % (key, el["f"]), vs[0][0])
+                out.append((val, s))
+                continue
             if op == "=":
                 new = val
             elif op in ("+=", "++"):
@@ -550,9 +563,15 @@ class Analysis:
             self.blocks_visited.add((f.name, bid))
             if bid in heads:
                 if frm is not None and frm in heads[bid]:
+                    if self.on_backedge is not None:
+                        self.on_backedge(f, bid, s)
                     continue  # back edge: the loop was entered with its writes havocked
                 s = s.copy()
+                if self.on_loop_pre is not None:
+                    self.on_loop_pre(f, bid, s)
                 self.havoc(f, heads[bid], s)
+                if self.on_loop_entry is not None:
+                    self.on_loop_entry(f, bid, s)
             k = (bid, s.key())
             if k in seen:
                 continue
